@@ -37,6 +37,11 @@ extern "C" {
    extern int g_j;            /* ghost index: "for every j" the getline model stores an arbitrary byte at s[j]                  */
    extern int g_len, g_off;   /* regions B: NUL witness of the source string, offset of pos                                     */
    extern int g_bufsize;      /* regions B: buf_size (never changed there)                                                      */
+   /* epilogue: recorders.  index 0 = column name set, 1 = row name set (whoever owns them), 2 = any other object */
+   extern void* gp_ns[2];
+   extern int g_dtor[3];           /* ~NameSet() calls per object                                                               */
+   extern int g_free[6];           /* spx_free calls: 0 column set, 1 row set, 2 buf, 3 tmp, 4 line, 5 anything else (NULL too)  */
+   extern int g_dtor_at_free[2];   /* number of destructor runs the name set had seen when it was freed (first free)            */
 }
 
 struct SPxOut
@@ -46,6 +51,7 @@ struct SPxOut
 };
 #define SPX_MSG_ERROR(x)   {}
 #define SPX_MSG_WARNING(spxout, x) {}
+#define SPX_MSG_INFO2(spxout, x) {}     /* the real macros expand to a braced block (conformance-checked): `else SPX_MSG_ERROR(..)` is a complete statement */
 
 /* ---- spxalloc.h: the real functions minus the out-of-memory exception.  realloc = NEW object of exactly the requested size with
  * ARBITRARY content (over-approximates "old prefix preserved"), old object freed. ---------------------------------------------- */
@@ -292,5 +298,82 @@ extern "C" void w_collapse(int cap_tmp, int cap_line, int* out)
    out[0] = h.o_k;
    out[1] = (0 <= h.o_k && h.o_k < cap_line) ? gp_line[h.o_k] : 1;
    out[2] = gp_tmp[g_len];
+}
+#endif
+
+/* =================================================================================================================================
+ * epilogue: from the label `syntax_error:` to the closing brace of readLPF (C13 "without ... leak").
+ * NameSet is a RECORDER: its destructor counts the calls per object (and writes a member, so that destroying a freed or null
+ * object is a failed pointer check); spx_free is the real one (free, p = nullptr) plus a recorder per object.  The name sets are
+ * heap objects created by the wrapper (never automatic: no implicit destructor call can be counted). */
+#ifdef INST_epilogue
+struct NameSet
+{
+   int live;
+   ~NameSet()
+   {
+      live = 0;
+      g_dtor[(void*)this == gp_ns[0] ? 0 : (void*)this == gp_ns[1] ? 1 : 2]++;
+   }
+};
+static inline void verif_free_rec(void* p)
+{
+   int w = (p == 0) ? 5 : p == gp_ns[0] ? 0 : p == gp_ns[1] ? 1 : p == (void*)gp_buf ? 2 : p == (void*)gp_tmp ? 3 : p == (void*)gp_line ? 4 : 5;
+
+   if(w < 2 && g_free[w] == 0)
+      g_dtor_at_free[w] = g_dtor[w];
+
+   g_free[w]++;
+   free(p);
+}
+template <class PT> inline void spx_free(PT& p)
+{
+   verif_free_rec((void*)p);
+   p = 0;
+}
+
+struct HostE
+{
+   SPxOut* spxout;
+   NameSet* in_p_cnames; NameSet* in_p_rnames; NameSet* in_cnames; NameSet* in_rnames;
+   bool in_finished; int in_lineno;
+
+   bool body()
+   {
+      NameSet* p_cnames = in_p_cnames;
+      NameSet* p_rnames = in_p_rnames;
+      NameSet* cnames = in_cnames;
+      NameSet* rnames = in_rnames;
+      bool finished = in_finished;
+      bool unnamed = true;
+      int lineno = in_lineno;
+      int buf_size = SOPLEX_LPF_MAX_LINE_LEN;
+      char* buf = gp_buf;
+      char* tmp = gp_tmp;
+      char* line = gp_line;
+      char* pos = 0;
+      char* pos_old = 0;
+#include "epilogue.inc"
+   }
+};
+/* own_c / own_r: readLPF created the set itself (p_cnames == nullptr) */
+extern "C" int w_epilogue(int own_c, int own_r, int finished, int lineno)
+{
+   VIN("own_c", own_c); VIN("own_r", own_r); VIN("finished", finished);
+   NameSet* cn = (NameSet*)malloc(sizeof(NameSet));
+   NameSet* rn = (NameSet*)malloc(sizeof(NameSet));
+   gp_buf = (char*)malloc(SOPLEX_LPF_MAX_LINE_LEN); gp_tmp = (char*)malloc(SOPLEX_LPF_MAX_LINE_LEN); gp_line = (char*)malloc(SOPLEX_LPF_MAX_LINE_LEN);
+   __CPROVER_assume(cn != 0 && rn != 0 && gp_buf != 0 && gp_tmp != 0 && gp_line != 0);
+   cn->live = 1; rn->live = 1;
+   gp_ns[0] = cn; gp_ns[1] = rn;
+   g_dtor[0] = 0; g_dtor[1] = 0; g_dtor[2] = 0;
+   g_free[0] = 0; g_free[1] = 0; g_free[2] = 0; g_free[3] = 0; g_free[4] = 0; g_free[5] = 0;
+   g_dtor_at_free[0] = -1; g_dtor_at_free[1] = -1;
+   HostE h;
+   h.spxout = 0;
+   h.in_p_cnames = own_c ? 0 : cn; h.in_cnames = cn;      /* readLPF: cnames = p_cnames ? p_cnames : its own new NameSet */
+   h.in_p_rnames = own_r ? 0 : rn; h.in_rnames = rn;
+   h.in_finished = finished != 0; h.in_lineno = lineno;
+   return h.body();
 }
 #endif
